@@ -304,6 +304,11 @@ def rule_echo(ck, consts):
             n_code += 1
             ok = isinstance(v, ast.Subscript) and isinstance(v.slice, ast.Constant) and v.slice.value == 0 and q.is_call(v.value, "struct.unpack") and len(v.value.args) == 2 \
                 and isinstance(v.value.args[0], ast.Constant) and v.value.args[0].value in (">H", "!H") and q.unparse(v.value.args[1]) == "%s[:2]" % data
+            if not ok:
+                un = v.value if isinstance(v, ast.Subscript) else v
+                recognised = q.is_call(un, "struct.unpack") and len(un.args) == 2 and isinstance(un.args[0], ast.Constant)
+                if not recognised:
+                    raise AnalysisError("_handle_message: the close code is not parsed by struct.unpack(<format>, <payload slice>)[0] (got %s)" % q.unparse(v)[:60])
             ck.ob(R, hm, node.ast, ok, "close code = first two payload bytes, big-endian unsigned")
             ck.ob(R, hm, node.ast, X.reached(seen8, node), "the close code is parsed on the opcode-8 path", construct="code parsed on close path")
         if "self.close_reason" in ap:
@@ -429,9 +434,12 @@ def rule_ping_timeout(ck, consts):
         return (min(closes, 2), min(pings_after, 1))
 
     # a timeout of 0 disables the check: the timeout test folds to False for 0 and True for a positive value
-    for tn in pp.cfg.stmt_nodes(lambda n: n.kind == "test" and "timeout" in q.names_in(n.ast) and len(q.names_in(n.ast)) == 1):
+    tnames = {"self.ping_timeout"} | {t_.id for x_ in q.walk_body(pp.node) if isinstance(x_, ast.Assign) and q.dotted(x_.value) == "self.ping_timeout" for t_ in x_.targets if isinstance(t_, ast.Name)}
+    n_tt = 0
+    for tn in pp.cfg.stmt_nodes(lambda n: n.kind == "test" and isinstance(n.ast, ast.Compare) and (q.paths_in(n.ast) & tnames)):
+        n_tt += 1
         try:
-            v0, v1 = bool(q.fold(tn.ast, {"timeout": 0})), bool(q.fold(tn.ast, {"timeout": 5}))
+            v0, v1 = bool(q.fold(tn.ast, {k: 0 for k in tnames})), bool(q.fold(tn.ast, {k: 5 for k in tnames}))
         except q.NotFoldable:
             raise AnalysisError("periodic_ping: timeout test %s does not fold" % q.unparse(tn.ast))
         ck.ob(R, pp, tn.ast, (v0, v1) == (False, True), "the pong deadline applies only for a positive ping timeout (0 disables it)")
@@ -599,6 +607,17 @@ def rule_closed_error(ck):
                 h = q.protected_by(npm, x, "StreamClosedError")
                 ck.ob(R, fi, x, h is not None and any(_raises(st, CLOSED_ERR) for st in h.body), "an asynchronously failing write surfaces as WebSocketClosedError")
     ck.floor(R, n_aw, 1, "awaited write futures in write_message")
+    # no shortcut: the raw future of the stream write never leaves write_message (it is only awaited inside the translating wrapper)
+    raw = set()
+    for st_ in q.walk_body(wm.node):
+        if isinstance(st_, (ast.Assign, ast.AnnAssign)) and getattr(st_, "value", None) is not None and any(c is x for c in sites for x in ast.walk(st_.value)):
+            raw |= {p_ for p_ in q.assigned_paths(st_)}
+    rets = [x for x in q.walk_body(wm.node) if isinstance(x, ast.Return) and x.value is not None]
+    ck.floor(R, len(rets), 1, "return statements in write_message")
+    for r in rets:
+        direct = any(c is x for c in sites for x in ast.walk(r.value))
+        leaks = direct or any(isinstance(y, ast.Name) and y.id in raw for y in ast.walk(r.value))
+        ck.ob(R, wm, r, not leaks, "write_message never returns the stream's own write future (its StreamClosedError would not be translated to WebSocketClosedError): every returned future goes through the translating wrapper")
 
 
 def run(ck):
@@ -688,6 +707,7 @@ MUTANTS = [
     ("teardown branch of close() only when we had not closed first", _in(P13 + ".close", replace_expr(lambda n: isinstance(n, ast.Attribute) and n.attr == "client_terminated" and isinstance(n.ctx, ast.Load), lambda n: parse_expr("(self.client_terminated and self._waiting is None)"))), "C16.teardown"),
     ("is_closing() ignores that we already sent our close frame", _in(P13 + ".is_closing", replace_expr(lambda n: isinstance(n, ast.BoolOp), lambda n: ast.BoolOp(op=n.op, values=n.values[:2]))), "C16.no-data-after-close"),
     ("ping timeout 0 (disabled) closes the connection", _in(P13 + ".periodic_ping", replace_expr(lambda n: isinstance(n, ast.Compare) and _src(n) == "timeout > 0", lambda n: parse_expr("timeout >= 0"))), "C16.ping-timeout"),
+    ("seeded C16-adv2: already-done write future returned without the error translation", _in(P13 + ".write_message", lambda root: bool([root.body.insert(i + 1, parse_stmt("if fut.done():\n    return fut")) for i, st in enumerate(list(root.body)) if isinstance(st, ast.Try) and "_write_frame" in _src(st)])), "C16.closed-error"),
     ("undo the G5-2 repair: the receive loop handles only StreamClosedError", _in(P13 + "._receive_frame_loop", _drop_handler("Exception")), "C16.notify-once"),
     ("broad loop handler returns before the close notification", _in(P13 + "._receive_frame_loop", lambda root: bool([h.body.append(parse_stmt("return")) for n in ast.walk(root) if isinstance(n, ast.Try) for h in n.handlers if h.type is not None and _src(h.type) == "Exception"])), "C16.notify-once"),
     ("close code parsed only when a reason follows (>= 2 -> > 2)", _in(P13 + "._handle_message", replace_expr(lambda n: isinstance(n, ast.Compare) and _src(n) == "len(data) >= 2", lambda n: parse_expr("len(data) > 2"))), "C16.echo"),
